@@ -212,13 +212,14 @@ def specs(ctx):
     geo2 = (mc.MC_TESTS / 'GEOPHIRES-example_SHR-2.txt').read_text()
     failing = [('Reservoir Temperature', 'uniform', [40, 70]), ('Reservoir Area', 'uniform', [50.0, 120.0]),
                ('Reservoir Porosity', 'normal', [97, 3])]
-    out = [dict(name='contended', W=16, st=mc.make_settings(rnd, 40 if q else 300)),
-           dict(name='serial', W=1, st=mc.make_settings(rnd, 8 if q else 60)),
-           dict(name='failing', W=4, st=mc.make_settings(rnd, 24 if q else 200, inputs=failing, n_outputs=3)),
+    out = [dict(name='contended', W=16, st=mc.make_settings(rnd, 32 if q else 300)),
+           dict(name='serial', W=1, st=mc.make_settings(rnd, 6 if q else 60)),
+           dict(name='failing', W=4, st=mc.make_settings(rnd, 20 if q else 200, inputs=failing, n_outputs=3)),
            dict(name='geophires', W=3, st=geo_st + f'ITERATIONS, {5 if q else 24}\n', program='GEOPHIRES', base=geo)]
-    # a row longer than the buffer of the result-file object (st_blksize, 4096): 160 sampled inputs the simulator ignores
-    many = [(f'Verif Unused {k:03d}', 'uniform', [k, k + 1]) for k in range(160)]
-    out.append(dict(name='longrow', W=4, st=mc.make_settings(rnd, 6 if q else 40, inputs=many, n_outputs=2)))
+    # a row longer than the buffer of the result-file object (st_blksize, 4096): 24 sampled inputs with 190-character names
+    # that the simulator ignores (main() draws one histogram per input, so few long names rather than many short ones)
+    many = [('Verif Unused ' + 'x' * 175 + f'{k:02d}', 'uniform', [k, k + 1]) for k in range(24)]
+    out.append(dict(name='longrow', W=4, st=mc.make_settings(rnd, 4 if q else 40, inputs=many, n_outputs=2)))
     if not q:
         out += [dict(name=f'extra{k}', W=rnd.choice([2, 3, 8, 16]), st=mc.make_settings(rnd, rnd.choice([25, 80]))) for k in range(8)]
         out += [dict(name='geophires2', W=4, st=geo2_st + 'ITERATIONS, 12\n', program='GEOPHIRES', base=geo2)]
@@ -227,7 +228,7 @@ def specs(ctx):
 
 def correspondence(ctx, proofs_ok=True):
     bools = []
-    judge(ctx, mc.run_jobs(ctx, specs(ctx)), bools, max_rows=40 if ctx.quick else 120)
+    judge(ctx, mc.run_jobs(ctx, specs(ctx), parallel=4), bools, max_rows=24 if ctx.quick else 120)
     for i in fw.kernel_bools(ctx, 'c14', REQ, [b for b, _ in bools], shard=40, open_scope='string_scope'):
         bools[i][1]()
     ctx.count('kernel-checks', evaluations=len(bools))
